@@ -25,12 +25,15 @@ pub fn count(name: &'static str) {
 pub fn note(s: impl Into<String>) {
     with(|w| w.note(s));
 }
+/// (`Interrupted` is never in these lists: EINTR is transient by nature, a source that
+/// reports it for ever does not exist, and a caller may legitimately retry it. It is injected
+/// only as a one-shot fault, by the stages whose oracle accepts both giving up and a correct retry.)
 /// Error kinds a failing read can carry (a socket, a pipe, a file). The first entries are the
 /// common ones; the tail makes sure no code path depends on "the" error kind.
 pub fn read_error_kind() -> std::io::ErrorKind {
     use std::io::ErrorKind as K;
     pick(&[
-        K::ConnectionReset, K::ConnectionReset, K::Other, K::TimedOut, K::UnexpectedEof, K::Interrupted, K::ConnectionAborted, K::BrokenPipe, K::NotConnected, K::InvalidData,
+        K::ConnectionReset, K::ConnectionReset, K::Other, K::TimedOut, K::UnexpectedEof, K::ConnectionAborted, K::BrokenPipe, K::NotConnected, K::InvalidData,
         K::OutOfMemory, K::PermissionDenied, K::InvalidInput, K::WriteZero, K::Unsupported, K::NotFound,
     ])
 }
@@ -38,14 +41,14 @@ pub fn read_error_kind() -> std::io::ErrorKind {
 pub fn write_error_kind() -> std::io::ErrorKind {
     use std::io::ErrorKind as K;
     pick(&[
-        K::BrokenPipe, K::BrokenPipe, K::ConnectionReset, K::TimedOut, K::WriteZero, K::ConnectionAborted, K::Interrupted, K::Other, K::NotConnected, K::StorageFull, K::PermissionDenied,
+        K::BrokenPipe, K::BrokenPipe, K::ConnectionReset, K::TimedOut, K::WriteZero, K::ConnectionAborted, K::Other, K::NotConnected, K::StorageFull, K::PermissionDenied,
         K::InvalidInput, K::OutOfMemory, K::UnexpectedEof, K::Unsupported,
     ])
 }
 /// Error kinds of file operations (open, create, read, write, close).
 pub fn file_error_kind() -> std::io::ErrorKind {
     use std::io::ErrorKind as K;
-    pick(&[K::Other, K::PermissionDenied, K::NotFound, K::StorageFull, K::Interrupted, K::UnexpectedEof, K::InvalidData, K::ReadOnlyFilesystem, K::TimedOut, K::OutOfMemory, K::InvalidInput, K::WriteZero])
+    pick(&[K::Other, K::PermissionDenied, K::NotFound, K::StorageFull, K::UnexpectedEof, K::InvalidData, K::ReadOnlyFilesystem, K::TimedOut, K::OutOfMemory, K::InvalidInput, K::WriteZero])
 }
 /// Shortens byte strings for messages.
 pub fn show(b: &[u8]) -> String {
